@@ -1,3 +1,5 @@
 pub mod sfnt;
 pub mod walk;
 pub mod xref;
+pub mod src;
+pub mod vf;
